@@ -96,7 +96,7 @@ pub fn enc_str(bytes: &[u8]) -> String {
 }
 
 pub trait Elem:
-    WTIndexable + AsPrimitive<usize> + Serialize + DeserializeOwned + Debug + Send + Sync + Copy + 'static
+    WTIndexable + AsPrimitive<usize> + Serialize + DeserializeOwned + Debug + Default + Send + Sync + Copy + 'static
 where
     usize: AsPrimitive<Self>,
 {
@@ -304,8 +304,11 @@ where
         }
         Path::Default => (W::default(), 0),
     };
+    // the verification hook keeps the recorded (symbol, length) list alive in a static: that
+    // is harness state, not memory retained by the tree
+    let hook_bytes = (qwt::verif_hooks::last_craft().len() * std::mem::size_of::<(usize, u32)>()) as i64;
     let after = live_bytes();
-    Built { tree: Box::new(tree), heap: after - before + adj }
+    Built { tree: Box::new(tree), heap: after - before + adj - hook_bytes }
 }
 
 pub trait NewFromSlice<T> {
@@ -416,7 +419,7 @@ pub enum Slot {
     Rsq256(RSQVector256, i64),
     Rsq512(RSQVector512, i64),
     Bv(BitVector, i64),
-    Bvm(BitVectorMut),
+    Bvm(BitVectorMut, i64),
     Rsn(RSNarrow, i64),
     Rsw(RSWide, i64),
     Da0(DArray<false>, i64),
@@ -683,7 +686,8 @@ impl Interp {
                 let before = live_bytes();
                 if variant == "mut" {
                     let b: BitVectorMut = bits.iter().copied().collect();
-                    (Slot::Bvm(b), ok)
+                    let h = live_bytes() - before;
+                    (Slot::Bvm(b, h), ok)
                 } else {
                     let b: BitVector = bits.iter().copied().collect();
                     let h = live_bytes() - before;
@@ -695,28 +699,43 @@ impl Interp {
                 let before = live_bytes();
                 if variant == "mut" {
                     let b: BitVectorMut = ps.iter().copied().collect();
-                    (Slot::Bvm(b), ok)
+                    let h = live_bytes() - before;
+                    (Slot::Bvm(b, h), ok)
                 } else {
                     let b: BitVector = ps.iter().copied().collect();
                     let h = live_bytes() - before;
                     (Slot::Bv(b, h), ok)
                 }
             }
-            "bvnew" => (Slot::Bvm(BitVectorMut::new()), ok),
-            "bvzeros" => (Slot::Bvm(BitVectorMut::with_zeros(args[0].parse().unwrap())), ok),
-            "bvcap" => (Slot::Bvm(BitVectorMut::with_capacity(args[0].parse().unwrap())), ok),
+            "bvnew" => (Slot::Bvm(BitVectorMut::new(), 0), ok),
+            "bvzeros" => {
+                let before = live_bytes();
+                let b = BitVectorMut::with_zeros(args[0].parse().unwrap());
+                (Slot::Bvm(b, live_bytes() - before), ok)
+            }
+            "bvcap" => {
+                let before = live_bytes();
+                let b = BitVectorMut::with_capacity(args[0].parse().unwrap());
+                (Slot::Bvm(b, live_bytes() - before), ok)
+            }
             "copy" => {
                 // freeze / thaw / clone of a bit vector, clone of anything else
                 let src: usize = args[0].parse().unwrap();
                 let before = live_bytes();
                 match (&self.slots[src], variant) {
-                    (Slot::Bvm(b), "freeze") => {
+                    (Slot::Bvm(b, _), "freeze") => {
                         let bv: BitVector = b.clone().into();
                         let h = live_bytes() - before;
                         (Slot::Bv(bv, h), ok)
                     }
-                    (Slot::Bv(b, _), "thaw") => (Slot::Bvm(b.clone().into()), ok),
-                    (Slot::Bvm(b), _) => (Slot::Bvm(b.clone()), ok),
+                    (Slot::Bv(b, _), "thaw") => {
+                        let m: BitVectorMut = b.clone().into();
+                        (Slot::Bvm(m, live_bytes() - before), ok)
+                    }
+                    (Slot::Bvm(b, _), _) => {
+                        let m = b.clone();
+                        (Slot::Bvm(m, live_bytes() - before), ok)
+                    }
                     (Slot::Bv(b, h), _) => (Slot::Bv(b.clone(), *h), ok),
                     (Slot::Qv(q, h), _) => (Slot::Qv(q.clone(), *h), ok),
                     (Slot::Qvb(q), "build") => {
@@ -751,7 +770,7 @@ impl Interp {
                 match &self.slots[src] {
                     Slot::Qv(q, h) => match rt!(q, QVector) { Ok(x) => (Slot::Qv(x, *h), ok), Err(e) => (Slot::Err, format!("F:deserialize({})", e)) },
                     Slot::Bv(q, h) => match rt!(q, BitVector) { Ok(x) => (Slot::Bv(x, *h), ok), Err(e) => (Slot::Err, format!("F:deserialize({})", e)) },
-                    Slot::Bvm(q) => match rt!(q, BitVectorMut) { Ok(x) => (Slot::Bvm(x), ok), Err(e) => (Slot::Err, format!("F:deserialize({})", e)) },
+                    Slot::Bvm(q, h) => match rt!(q, BitVectorMut) { Ok(x) => (Slot::Bvm(x, *h), ok), Err(e) => (Slot::Err, format!("F:deserialize({})", e)) },
                     Slot::Rsq256(q, h) => match rt!(q, RSQVector256) { Ok(x) => (Slot::Rsq256(x, *h), ok), Err(e) => (Slot::Err, format!("F:deserialize({})", e)) },
                     Slot::Rsq512(q, h) => match rt!(q, RSQVector512) { Ok(x) => (Slot::Rsq512(x, *h), ok), Err(e) => (Slot::Err, format!("F:deserialize({})", e)) },
                     Slot::Rsn(q, h) => match rt!(q, RSNarrow) { Ok(x) => (Slot::Rsn(x, *h), ok), Err(e) => (Slot::Err, format!("F:deserialize({})", e)) },
@@ -770,7 +789,7 @@ impl Interp {
                 };
                 let bv = match &self.slots[src] {
                     Slot::Bv(b, _) => b.clone(),
-                    Slot::Bvm(b) => b.clone().into(),
+                    Slot::Bvm(b, _) => b.clone().into(),
                     _ => return (Slot::Err, "bad-op".into()),
                 };
                 let bv_heap = (bv.n_lines() * 64) as i64;
@@ -856,7 +875,8 @@ impl Interp {
     fn op(slot: &mut Slot, op: &str, args: &[&str]) -> String {
         let u = |i: usize| -> usize { args[i].parse::<u128>().unwrap() as usize };
         match slot {
-            Slot::Bvm(b) => {
+            Slot::Bvm(b, heap) => {
+                let before = live_bytes();
                 match op {
                     "push" => b.push(args[0] == "1"),
                     "append_bits" => b.append_bits(args[0].parse().unwrap(), u(1)),
@@ -873,6 +893,7 @@ impl Interp {
                     "shrink_to_fit" => b.shrink_to_fit(),
                     _ => return "bad-op".into(),
                 }
+                *heap += live_bytes() - before;
                 "U".into()
             }
             Slot::Qvb(q) => {
@@ -942,7 +963,7 @@ impl Interp {
                 }
                 _ => bv_q!(b, op, g),
             },
-            Slot::Bvm(b) => match op {
+            Slot::Bvm(b, _) => match op {
                 "into_iter" => o_list(b.clone().into_iter().map(|x| x as u128)),
                 _ => bv_q!(b, op, g),
             },
@@ -978,7 +999,7 @@ impl Interp {
         let r = match (&self.slots[a], &self.slots[b]) {
             (Slot::Qv(x, _), Slot::Qv(y, _)) => x == y,
             (Slot::Bv(x, _), Slot::Bv(y, _)) => x == y,
-            (Slot::Bvm(x), Slot::Bvm(y)) => x == y,
+            (Slot::Bvm(x, _), Slot::Bvm(y, _)) => x == y,
             (Slot::Rsq256(x, _), Slot::Rsq256(y, _)) => x == y,
             (Slot::Rsq512(x, _), Slot::Rsq512(y, _)) => x == y,
             (Slot::Rsn(x, _), Slot::Rsn(y, _)) => x == y,
@@ -998,7 +1019,7 @@ impl Interp {
             Slot::Rsq256(r, _) => dump(r),
             Slot::Rsq512(r, _) => dump(r),
             Slot::Bv(b, _) => dump(b),
-            Slot::Bvm(b) => dump(b),
+            Slot::Bvm(b, _) => dump(b),
             Slot::Rsn(r, _) => dump(r),
             Slot::Rsw(r, _) => dump(r),
             Slot::Da0(d, _) => dump(d),
@@ -1015,7 +1036,7 @@ impl Interp {
             Slot::Rsq256(r, _) => bincode::serialize(r).unwrap(),
             Slot::Rsq512(r, _) => bincode::serialize(r).unwrap(),
             Slot::Bv(b, _) => bincode::serialize(b).unwrap(),
-            Slot::Bvm(b) => bincode::serialize(b).unwrap(),
+            Slot::Bvm(b, _) => bincode::serialize(b).unwrap(),
             Slot::Rsn(r, _) => bincode::serialize(r).unwrap(),
             Slot::Rsw(r, _) => bincode::serialize(r).unwrap(),
             Slot::Da0(d, _) => bincode::serialize(d).unwrap(),
@@ -1032,6 +1053,7 @@ impl Interp {
             Slot::Rsq256(r, h) => f(*h, std::mem::size_of_val(r), r.space_usage_byte()),
             Slot::Rsq512(r, h) => f(*h, std::mem::size_of_val(r), r.space_usage_byte()),
             Slot::Bv(b, h) => f(*h, std::mem::size_of_val(b), b.space_usage_byte()),
+            Slot::Bvm(b, h) => f(*h, std::mem::size_of_val(b), b.space_usage_byte()),
             Slot::Rsn(r, h) => f(*h, std::mem::size_of_val(r), r.space_usage_byte()),
             Slot::Rsw(r, h) => f(*h, std::mem::size_of_val(r), r.space_usage_byte()),
             Slot::Da0(d, h) => f(*h, std::mem::size_of_val(d), d.space_usage_byte()),
